@@ -285,6 +285,13 @@ Proof.
     cbn [S.words length]. f_equal. apply IH. cbn [length] in H. lia.
 Qed.
 
+Lemma final_add h c d hs C D : h mod W = hs -> c mod W = C -> d mod W = D ->
+  (h + c + d) mod W = wadd (wadd hs C) D.
+Proof.
+  intros <- <- <-. unfold wadd.
+  rewrite <- (Z.add_mod h c W) by discriminate. rewrite <- (Z.add_mod (h + c) d W) by discriminate. reflexivity.
+Qed.
+
 Lemma compress_congr h hs block : length block = 64%nat -> R5 h hs ->
   exists h', M.compress h block = Ret h' /\ R5 h' (S.compress hs (S.words block)).
 Proof.
@@ -308,10 +315,7 @@ Proof.
     as [[[[[A B] C] D] E] [[[[A' B'] C'] D'] E']].
   destruct Rs as [(Ra & Rb & Rc & Rd & Re) (Ra' & Rb' & Rc' & Rd' & Re')].
   eexists; split; [reflexivity|].
-  unfold R5. subst. unfold wadd.
-  repeat split; rewrite Zplus_mod_idemp_l; rewrite (Z.add_mod (_ + _) _ W) by discriminate;
-    rewrite (Z.add_mod _ _ W) at 1 by discriminate; rewrite Zplus_mod_idemp_l; rewrite <- Z.add_mod by discriminate;
-    reflexivity.
+  unfold R5. split; [|split; [|split; [|split]]]; apply final_add; assumption.
 Qed.
 
 (* ---- 4. block loops, padding, the whole function ------------------------------------------------------ *)
